@@ -847,7 +847,7 @@ func c07Exhaustive(env *core.Env) []any {
 func init() {
 	core.Register(&core.Prop{
 		ID: "C07",
-		Rule: "event-sequence generator (rapid): structured sequences of borrow episodes over the places x, y, s, s.A, s.B, s.In, s.In.C, s.In.D, t, t.A, t.In, t.In.C, fa, fa[1] (create &T or &'T - or copy a live shared reference into a second reference variable -, do things while the loan is live, use the reference a last time - read or write through -, touch the place afterwards), nested up to depth 3 inside blocks and `if` regions; while loans are live only non-conflicting statements are generated (disjoint fields, reads and shared borrows under shared loans, uses of live references, two &' arguments of disjoint places in one call); in half of the cases exactly one conflicting access is injected against a live loan (read / write / &' or & borrow by let or by call, on the place itself or an overlapping prefix / extension). An independent loan model (textual last use, prefix overlap) labels the finished list: conflict-free => must compile, run and print what the reference interpreter prints (final state of all places, values seen through references); with the injected conflict => `ferret -t` must report an error and the conflict-free twin must be accepted. Second family (exhaustive, 20 shapes): functions returning a reference to a local (scalar, via reference variable, struct field, whole struct, array element, in a branch, in a loop, from a method, declared without initialiser, const, inferred, inside a function literal) must be rejected, returning a parameter / receiver (field) reference must be accepted and work. non-trivial = at least one episode (accept) or a confirmed twin (reject); distinct = program text",
+		Rule: "event-sequence generator (rapid): structured sequences of borrow episodes over the places x, y, s, s.A, s.B, s.In, s.In.C, s.In.D, t, t.A, t.In, t.In.C, fa, fa[1] (create &T or &'T - or copy a live shared reference into a second reference variable -, do things while the loan is live, use the reference a last time - read or write through -, touch the place afterwards), nested up to depth 3 inside blocks and `if` regions; while loans are live only non-conflicting statements are generated (disjoint fields, reads and shared borrows under shared loans, uses of live references, two &' arguments of disjoint places in one call); in half of the cases exactly one conflicting access is injected against a live loan (read / write / &' or & borrow by let or by call, on the place itself or an overlapping prefix / extension; built on purpose: a read or shared borrow of a common prefix while an older mutable loan and a newer shared loan hold disjoint parts of it). An independent loan model (textual last use, prefix overlap) labels the finished list: conflict-free => must compile, run and print what the reference interpreter prints (final state of all places, values seen through references); with the injected conflict => `ferret -t` must report an error and the conflict-free twin must be accepted. Second family (exhaustive, 20 shapes): functions returning a reference to a local (scalar, via reference variable, struct field, whole struct, array element, in a branch, in a loop, from a method, declared without initialiser, const, inferred, inside a function literal) must be rejected, returning a parameter / receiver (field) reference must be accepted and work. non-trivial = at least one episode (accept) or a confirmed twin (reject); distinct = program text",
 		Gen:        c07GenCase,
 		New:        func() any { return &c07Case{} },
 		Check:      c07Check,
